@@ -116,7 +116,7 @@ func newSdbFixture(t *testing.T, s *itutil.ChainIntegrationTestSuite) *sdbFixtur
 	balonly := mk("balonly")
 	fund(balonly, f.denoms[1], 9)
 	add("balonly", balonly)
-	emptyacc := mk("emptyacc") // account record, nothing else
+	emptyacc := common.BytesToAddress([]byte{3}) // account record, nothing else — at the address of the RIPEMD-160 precompile (go-ethereum's journal has a quirk for touches of exactly this address)
 	ak.SetAccount(ctx, ak.NewAccountWithAddress(ctx, emptyacc.Bytes()))
 	add("emptyacc", emptyacc)
 	// module accounts
@@ -411,6 +411,21 @@ func runSdbCases(t *testing.T, f *sdbFixture, rng *hx.Rng, p *hx.Proto, nOps int
 			}
 		}
 	}
+	// directed operations, replayed at the head of the first case of every run (index of the operation class, address,
+	// two parameters): (i) transient storage of ONE address overwritten between two snapshots, the later one reverted — the
+	// write made before it must stand; (ii) a zero-value touch of the empty account at 0x03 inside a reverted frame, then a
+	// commit that deletes empty touched accounts — the account must survive
+	type forcedOp struct{ k, a, p1, p2 int }
+	idxOf := func(name string) int {
+		for i, n := range f.names {
+			if n == name {
+				return i
+			}
+		}
+		return 0
+	}
+	forced := []forcedOp{{66, idxOf("eoa2"), 0, 1}, {85, 0, 0, 0}, {66, idxOf("eoa2"), 0, 2}, {85, 0, 0, 0}, {66, idxOf("eoa2"), 1, 1}, {95, 0, 1, 0},
+		{85, 0, 0, 0}, {5, idxOf("emptyacc"), 0, 0}, {95, 0, 2, 0}, {99, 0, 1, 0}}
 	realOps := 0
 	for realOps < nOps {
 		ctx, _ := f.base.CacheContext()
@@ -422,6 +437,9 @@ func runSdbCases(t *testing.T, f *sdbFixture, rng *hx.Rng, p *hx.Proto, nOps int
 		nsnaps := 1
 		savedDump := map[int]string{}
 		caseLen := 5 + rng.Intn(55)
+		if len(forced) > 0 {
+			caseLen = len(forced)
+		}
 		committed := false
 		for step := 0; step < caseLen && !committed; step++ {
 			a := pickAddr()
@@ -430,9 +448,18 @@ func runSdbCases(t *testing.T, f *sdbFixture, rng *hx.Rng, p *hx.Proto, nOps int
 			var op string
 			var run func() string
 			cur := db.GetCurrentContext()
-			switch k := rng.Intn(100); {
+			kk := rng.Intn(100)
+			var fo *forcedOp
+			if len(forced) > 0 {
+				fo, forced = &forced[0], forced[1:]
+				kk, a = fo.k, fo.a
+			}
+			switch k := kk; {
 			case k < 9:
 				n := amounts(a, cur)
+				if fo != nil {
+					n = big.NewInt(int64(fo.p1))
+				}
 				op = fmt.Sprintf("addBalance %d %s", a, n)
 				run = func() string { db.AddBalance(f.addrs[a], n); return "ok" }
 			case k < 18:
@@ -494,6 +521,9 @@ func runSdbCases(t *testing.T, f *sdbFixture, rng *hx.Rng, p *hx.Proto, nOps int
 				run = func() string { db.AddSlotToAccessList(f.addrs[a], f.keys[key]); return "ok" }
 			case k < 68:
 				key, v := rng.Intn(4), rng.Intn(3)
+				if fo != nil {
+					key, v = fo.p1, fo.p2
+				}
 				op = fmt.Sprintf("setTransient %d %d %d", a, key, v)
 				run = func() string {
 					db.SetTransientState(f.addrs[a], f.keys[key], common.BigToHash(big.NewInt(int64(v))))
@@ -532,6 +562,10 @@ func runSdbCases(t *testing.T, f *sdbFixture, rng *hx.Rng, p *hx.Proto, nOps int
 			case k < 90:
 				op = "snapshot"
 				run = func() string { id := db.Snapshot(); nsnaps++; return fmt.Sprint(id) }
+			case k < 97 && fo != nil:
+				id := fo.p1
+				op = fmt.Sprintf("revert %d", id)
+				run = func() string { db.RevertToSnapshot(id); nsnaps = id + 2; return "ok" }
 			case k < 97:
 				id := 0
 				if nsnaps > 1 {
@@ -548,6 +582,9 @@ func runSdbCases(t *testing.T, f *sdbFixture, rng *hx.Rng, p *hx.Proto, nOps int
 				run = func() string { db.RevertToSnapshot(id); nsnaps = id + 2; return "ok" }
 			default:
 				de := rng.Chance(4, 5)
+				if fo != nil {
+					de = fo.p1 == 1
+				}
 				op = fmt.Sprintf("commit %d", b01(de))
 				run = func() string {
 					if err := db.CommitMultiStore(de); err != nil {
